@@ -69,6 +69,19 @@ pub fn build_x(sizes: &[usize], bad: &[usize], data: bool, names: bool, dead_las
 
 pub fn inputs(tier: Tier) -> Vec<PCase> {
     let mut v = vec![];
+    // "twins": two functions with the same signature and byte-identical code of which only one
+    // declares the local the code uses - the other is invalid, the module must be rejected
+    for (k, (n, bad_at)) in [(2usize, 1usize), (3, 1), (3, 2), (4, 1), (4, 3)].iter().enumerate() {
+        let mut mb = MB::default();
+        let t0 = mb.ty(&[], &[]);
+        for i in 0..*n {
+            let code = cat(&[&local_get(0), &[DROP], &[END]]);
+            let locals = if i == *bad_at { vec![] } else { vec![(1, I32)] };
+            let f = mb.func(t0, locals, code);
+            mb.export(&format!("f{}", i), 0, f);
+        }
+        v.push(PCase { name: format!("twin bodies #{}: n={} the one without the local declaration is #{}", k, n, bad_at), wasm: mb.build(), preserve_ct: false, n_funcs: *n, gc: false });
+    }
     // bulk-memory instructions that only dead code holds (directly after a return, and inside a
     // construct that starts after it); no passive segment, so whether a data-count section is
     // needed is decided by scanning the function bodies
@@ -177,17 +190,40 @@ fn run_wpar(args: &Args, cases: &[PCase], items: &[Value], tag: &str) -> Result<
     let nprocs = args.threads.max(1).min(items.len().max(1));
     let mut ch = vec![];
     for p in 0..nprocs {
-        ch.push(
-            Command::new(&exe).arg(&cpath).arg(&ipath).arg(p.to_string()).arg(nprocs.to_string()).stdout(Stdio::piped()).stderr(Stdio::null()).spawn().map_err(|e| e.to_string())?,
-        );
+        // output goes to a file: nothing reads a pipe while the watchdog polls
+        let of = std::fs::File::create(dir.join(format!("out_{}.jsonl", p))).map_err(|e| e.to_string())?;
+        ch.push(Command::new(&exe).arg(&cpath).arg(&ipath).arg(p.to_string()).arg(nprocs.to_string()).stdout(Stdio::from(of)).stderr(Stdio::null()).spawn().map_err(|e| e.to_string())?);
     }
     let mut out: Vec<Value> = vec![Value::Null; items.len()];
-    for c in ch {
-        let o = c.wait_with_output().map_err(|e| e.to_string())?;
-        if !o.status.success() {
-            return Err(format!("wpar exited with {:?}", o.status));
+    // watchdog: the explorer's own caps are checked between runs; a run that never returns (a
+    // deadlock under the controlled scheduler) must end as a machinery failure, not as a wait for ever
+    let limit = std::time::Duration::from_secs(if args.tier == Tier::Quick { 900 } else { 4 * 3600 });
+    let t0 = std::time::Instant::now();
+    loop {
+        let mut running = false;
+        for c in ch.iter_mut() {
+            if let Ok(None) = c.try_wait() {
+                running = true;
+            }
         }
-        for l in String::from_utf8_lossy(&o.stdout).lines() {
+        if !running {
+            break;
+        }
+        if t0.elapsed() > limit {
+            for c in ch.iter_mut() {
+                let _ = c.kill();
+            }
+            return Err(format!("a wpar process did not finish within {:?} (killed): a run under the controlled scheduler never returned", limit));
+        }
+        std::thread::sleep(std::time::Duration::from_millis(100));
+    }
+    for (p, mut c) in ch.into_iter().enumerate() {
+        let status = c.wait().map_err(|e| e.to_string())?;
+        if !status.success() {
+            return Err(format!("wpar exited with {:?}", status));
+        }
+        let text = std::fs::read_to_string(dir.join(format!("out_{}.jsonl", p))).unwrap_or_default();
+        for l in text.lines() {
             if let Ok(v) = serde_json::from_str::<Value>(l) {
                 if let Some(i) = v["item"].as_u64() {
                     out[i as usize] = v;
